@@ -126,7 +126,7 @@ CLAIMED = {
         technique='Coq proof: Hoare logic over the generator monad (Layer A invariants for every configuration and decision script), machine-level method contracts by induction on the call depth and whole-image theorems for all five variants (Layer B), non-vacuity witnesses; + byte-exact generator correspondence + judgement of implementation images on the extracted reference machine (incl. ImageSem.count_method / need_method vs decoded image vs executed steps)',
     ),
     'C06': dict(
-        text='Machine-checked (Coq): callees have strictly smaller depth, the call graph is acyclic, every direct jump / branch of every method goes to pc+4 / pc+8 (Layer A); the number of executed instructions is finite and EQUALS image_steps = 12 + sum over elements of elem_cost + 13 computed from the call DAG and the selected PIC cases, for all five variants (C06_executed_count_*), with steps_method = ImageSem.count_method.',
+        text='Machine-checked (Coq): callees have strictly smaller depth, the call graph is acyclic, every direct jump / branch of every method goes to pc+4 / pc+8 (Layer A); the number of executed instructions is finite and EQUALS image_steps = 12 + sum over elements of elem_cost + 13 computed from the call DAG and the selected PIC cases, for all five variants (C06_executed_count_*: ONE list of selected cases is fixed by the image before any layout or entry state - exists eh, forall L s0 - so every run executes the same number of instructions), with steps_method = ImageSem.count_method.',
         design='4 C06',
         note="Trusted: Coq kernel (vm_compute), no axioms (Print Assumptions: closed; coqchk -o: Axioms <none>); gen_tables.py (fragments and tables dumped from /repo at run time); extraction (ExtrOcamlBasic/ExtrOcamlString); Machine.v/Isa.v hand-written reference semantics and ImageSem.Init hand-written entry conditions; Generator.v/Builder.v mirror the Python generators and are tied byte-for-byte by the generator correspondence over decision scripts (ScriptRandom) on every run. The whole-image theorems are about the model's image; side conditions: PIC switch offsets encodable (F6) and < 2047 cases, image < 2 GiB, data register not t1 with trampolines (DESIGN 6.2), RIMI call chains within the emitted shadow stack. Clauses named _partial / _statement in coq/Properties are decided by the judges on implementation images executed on the extracted reference machine (a test, not a proof).",
         technique='Coq proof: Hoare logic over the generator monad (Layer A invariants for every configuration and decision script), machine-level method contracts by induction on the call depth and whole-image theorems for all five variants (Layer B), non-vacuity witnesses; + byte-exact generator correspondence + judgement of implementation images on the extracted reference machine (incl. ImageSem.count_method / need_method vs decoded image vs executed steps)',
@@ -150,7 +150,7 @@ CLAIMED = {
         technique='Coq proof: Hoare logic over the generator monad (Layer A invariants for every configuration and decision script), machine-level method contracts by induction on the call depth and whole-image theorems for all five variants (Layer B), non-vacuity witnesses; + byte-exact generator correspondence + judgement of implementation images on the extracted reference machine (incl. ImageSem.count_method / need_method vs decoded image vs executed steps)',
     ),
     'C11': dict(
-        text='Machine-checked (Coq): FIXER method contract (every method entered with its return address on top of the CFI stack returns through the check sequence, which passes; every call is the tagged stub registering exactly the ra of that call; LIFO along the call DAG) and whole image over the emitted files - the untampered run never reaches the trap and ends with the CFI stack empty; a forged saved-ra (any state, any moment before the epilogue) makes the checked return Trap at the ecall before any transfer to the forged address (per-return theorem). Partial: the tamper clause over whole runs is judged (overwrites of live saved-ra slots).',
+        text='Machine-checked (Coq): FIXER method contract (every method entered with its return address on top of the CFI stack returns through the check sequence, which passes; every call is the tagged stub registering exactly the ra of that call; LIFO along the call DAG) and whole image over the emitted files - the untampered run never reaches the trap and ends with the CFI stack empty; a forged saved-ra (any state, any moment before the epilogue) makes the checked return Trap at the ecall before any transfer to the forged address (per-return theorem); C11_tampered_frame_traps_partial: for every call-making method of every image and every position of its own body outside the stubs, the untampered run reaches that position with the frame live, and overwriting the saved-ra slot at that moment with any other value makes the continued run (rest of the body, all further callees) end in the Trap of its own ecall - two-run theorem, with a concrete witness. Partial: tampering the slot of a caller while a callee runs (and inside stubs / the epilogue) is judged (overwrites of live saved-ra slots).',
         design='4 C11',
         note="Trusted: Coq kernel (vm_compute), no axioms (Print Assumptions: closed; coqchk -o: Axioms <none>); gen_tables.py (fragments and tables dumped from /repo at run time); extraction (ExtrOcamlBasic/ExtrOcamlString); Machine.v/Isa.v hand-written reference semantics and ImageSem.Init hand-written entry conditions; Generator.v/Builder.v mirror the Python generators and are tied byte-for-byte by the generator correspondence over decision scripts (ScriptRandom) on every run. The whole-image theorems are about the model's image; side conditions: PIC switch offsets encodable (F6) and < 2047 cases, image < 2 GiB, data register not t1 with trampolines (DESIGN 6.2), RIMI call chains within the emitted shadow stack. Clauses named _partial / _statement in coq/Properties are decided by the judges on implementation images executed on the extracted reference machine (a test, not a proof).",
         technique='Coq proof: Hoare logic over the generator monad (Layer A invariants for every configuration and decision script), machine-level method contracts by induction on the call depth and whole-image theorems for all five variants (Layer B), non-vacuity witnesses; + byte-exact generator correspondence + judgement of implementation images on the extracted reference machine (incl. ImageSem.count_method / need_method vs decoded image vs executed steps)',
